@@ -1,4 +1,5 @@
 import LivesimVerif.Model.Limiter
+import LivesimVerif.Gen.Access
 /-!
 # C20 — The request limiter enforces its quota exactly, also under concurrency
 
@@ -135,3 +136,18 @@ example : (runAll (Ip := Nat) { max := 2, interval := 100, wl := fun _ => false 
 example : (⟨3232236800, 24⟩ : Block).contains 3232236877 = true := by decide
 
 end Lim
+
+
+/-! ## lock discipline of the limiter (regenerated access table) -/
+namespace LimiterLocks
+
+def limAcc := Gen.accesses.filter fun a => a.1 == "app" && a.2.1 == "IPRequestLimiter"
+
+/-- **Every access to the counters and the reset time holds the limiter's mutex** (the fields that `Inc` changes);
+the other fields are set once when the limiter is created. -/
+theorem c20_lock_discipline :
+    (limAcc.filter fun a => a.2.2.1 == "Counters" || a.2.2.1 == "ResetTime").all (fun a => a.2.2.2.2.2.1 == "W") = true ∧
+    (limAcc.filter fun a => a.2.2.2.2.1).all (fun a => a.2.2.1 == "Counters" || a.2.2.1 == "ResetTime") = true ∧
+    (limAcc.any fun a => a.2.2.1 == "ResetTime" && a.2.2.2.1 == "IPRequestLimiter.EndTime") = true := by decide
+
+end LimiterLocks
